@@ -224,6 +224,36 @@ theorem genBinary_not_tag {cx : Ctx} {b : BinOp} {args : Ir.Exprs} {a : HlslAst.
           | error e => simp [hx, hy] at h
           | ok y' => simp [hx, hy] at h; subst h; rfl
 
+theorem genBinary_shape {cx : Ctx} {b : BinOp} {args : Ir.Exprs} {a : HlslAst.Expr} (h : genBinary cx b args = .ok a) :
+    ∃ x y, a = .bin b x y := by
+  cases args with
+  | nil => simp [genBinary] at h
+  | cons x r =>
+    cases r with
+    | nil => simp [genBinary] at h
+    | cons y r2 =>
+      cases r2 with
+      | cons z r3 => simp [genBinary] at h
+      | nil =>
+        simp only [genBinary] at h
+        cases hx : genExpr cx x with
+        | error e => simp [hx] at h
+        | ok x' =>
+          cases hy : genExpr cx y with
+          | error e => simp [hx, hy] at h
+          | ok y' => simp [hx, hy] at h; subst h; exact ⟨_, _, rfl⟩
+
+/-- whatever the floating-point `op=` arm (fixes 92d66eb / 35faaaa) emits is a binary operation -/
+theorem floatAssign_shape {cx : Ctx} {o : IntrinsicOp} {args : Ir.Exprs} {a : HlslAst.Expr} {scalars : List String} {err : String}
+    {outer inner : IntrinsicOp} {b : BinOp} (hf : mslOpForm o = .floatAssign scalars err outer inner b)
+    (hg : genExpr cx (.op o args) = .ok a) : ∃ bo x y, a = .bin bo x y := by
+  simp only [genExpr, hf] at hg
+  repeat' split at hg
+  all_goals first
+    | (simp at hg; done)
+    | (simp at hg; subst hg; exact ⟨_, _, _, rfl⟩)
+    | (obtain ⟨x, y, rfl⟩ := genBinary_shape hg; exact ⟨_, _, _, rfl⟩)
+
 /-- no generated expression is the tag argument `metal::true_type()` -/
 theorem gen_not_tag {cx : Ctx} (hn : ∀ f, cx.funcName f ≠ Msl.tagName) {sig : Sig} {vty : Var → Ty} :
     ∀ (e : Ir.Expr) (a : HlslAst.Expr) (t : Ty), genExpr cx e = .ok a → Ir.typeOf sig vty e = some t → Msl.isTagArg a = false
@@ -327,6 +357,9 @@ theorem gen_not_tag {cx : Ctx} (hn : ∀ f, cx.funcName f ≠ Msl.tagName) {sig 
               | cons a1 ar => rfl
           · simp only [hc, if_false] at hg
             exact genBinary_not_tag hg
+    | floatAssign scalars err outer inner b =>
+      obtain ⟨bo, x, y, rfl⟩ := floatAssign_shape hf (by simpa only [genExpr] using hg)
+      rfl
 
 theorem genArgs_not_tag {cx : Ctx} (hn : ∀ f, cx.funcName f ≠ Msl.tagName) {sig : Sig} {vty : Var → Ty} :
     ∀ (es : Ir.Exprs) (as : HlslAst.Exprs) (ps : List (Dir × Ty)),
